@@ -514,8 +514,71 @@ def check_C05(res):
     return "random catalogs of nested zones (delegations, glue, wildcards, ENTs, CNAME chains 0-10 and loops, classes IN/CH/HS); every name within two labels of the catalog's names x random types; one record = one request/response pair judged by Server!Respond + Resolve!Answer in TLC"
 
 
+def check_C01(res):
+    q = res.tier == "quick"
+    server_stage(res, "total", 10 if q else 400, ["C01"])
+    server_stage(res, "mutate", 2 if q else 60, ["C01"])
+    server_stage(res, "tsig", 1 if q else 20, ["C01"])
+    res.assumptions += ["the response buffer has the documented minimum size for the transport",
+                        "catalogs are built through the public zone API (including zones validation would reject)"]
+    return "exhaustive 12-14 octet messages over a 12-symbol alphabet x all count combinations in {0,1}; every truncation of well-formed requests; count perturbations; misplaced/duplicated OPT and TSIG; random octets; ordinary and weird catalogs; keys 0-3; RRL on/off; a record is non-trivial when the request reaches the section scan"
+
+
+def check_C02(res):
+    q = res.tier == "quick"
+    server_stage(res, "total", 6 if q else 200, ["C02"])
+    server_stage(res, "resolve", 4 if q else 100, ["C02"])
+    server_stage(res, "size", 1 if q else 30, ["C02"])
+    server_stage(res, "tsig", 1 if q else 20, ["C02"])
+    return "every response of the total/resolve/size/tsig request families is decoded by Wire!DecodeMessage in TLC"
+
+
+def check_C03(res):
+    q = res.tier == "quick"
+    server_stage(res, "header", 7 if q else 1, ["C03"])
+    server_stage(res, "total", 4 if q else 100, ["C03"])
+    return "all 16 header bits (every 7th flag word in quick, all 65536 in thorough) x QDCOUNT 0/1/2 x mixed-case QNAMEs x both transports; plus the total-request family"
+
+
+def check_C04(res):
+    q = res.tier == "quick"
+    server_stage(res, "size", 3 if q else 120, ["C04"])
+    server_stage(res, "resolve", 3 if q else 60, ["C04"])
+    res.assumptions += ["requests in this check carry no TSIG and RRL is off, so UDP and TCP handling of one request are comparable"]
+    return "catalogs with RRsets of 20-70 records, 200-octet TXT strings, delegations with 4-12 name servers (in-bailiwick and sibling glue), 230-octet names; advertised payload 0..65535, server payload 512..65535; every UDP record carries its TCP twin"
+
+
+def check_C07(res):
+    q = res.tier == "quick"
+    server_stage(res, "dispatch", 12 if q else 400, ["C07"])
+    return "catalogs with nested loaded/not-yet-loaded/failed entries in classes IN/CH/HS/CLASS65280 (and a root zone); QNAME x QCLASS x QTYPE (incl. AXFR/IXFR/MAILA/MAILB/ANY) x all 16 opcodes"
+
+
+def check_C08(res):
+    q = res.tier == "quick"
+    server_stage(res, "mutate", 8 if q else 300, ["C08"])
+    server_stage(res, "total", 4 if q else 100, ["C08"])
+    return "well-formed requests mutated by truncation at every offset, appended junk, count changes, misplaced/duplicated OPT and TSIG, extra records in all sections, byte flips"
+
+
+def check_C09(res):
+    q = res.tier == "quick"
+    server_stage(res, "edns", 6 if q else 300, ["C09"])
+    server_stage(res, "mutate", 3 if q else 60, ["C09"])
+    return "0/1/2 OPT records in every section and position, all version/ext-rcode/flag bytes in the TTL, root / non-root / compressed owners, option TLVs valid and truncated, advertised sizes 0..65535, server payload sizes 512..65535"
+
+
+def check_C10(res):
+    q = res.tier == "quick"
+    server_stage(res, "tsig", 5 if q else 200, ["C10"])
+    res.assumptions += ["HMAC-SHA1/SHA-256 computed by the JDK inside TLC (trusted primitive)",
+                        "the server's clock read lies in the harness-measured interval [t0,t1] (whole seconds)"]
+    return "requests signed by the harness's own RFC 8945 signer; variants: wrong secret, unknown key/algorithm, key-algorithm mismatch, MAC truncated to every length, time offsets around +-fudge, tampered covered octets, bad class/TTL, TSIG not last, other-data, error codes, maximal key/algorithm names; both MACs recomputed in TLC"
+
+
 CHECKS = {
-    "C05": check_C05,
+    "C01": check_C01, "C02": check_C02, "C03": check_C03, "C04": check_C04, "C05": check_C05,
+    "C07": check_C07, "C08": check_C08, "C09": check_C09, "C10": check_C10,
 }
 
 
